@@ -254,6 +254,47 @@ def run(tier):
     n = 150 if tier == "quick" else 10000
     ne, estats, dout, srcs = execstream.run(ck, n, ck.seed + 7, level=2, label="welltyped", metamorphic=False)
     ck.log("well-typed generated programs: %d %s" % (ne, dict(estats)))
+    # the tie of Model/Autoderef.v to value_type.rs: the public predicates (can_be_declared_as, can_be_concretization_of,
+    # can_coerce_into, can_coerce_address_into, can_autoderef_into, is_wellformed, pointer_depth, is_slice_pointer) of the
+    # REAL ValueType on pairs of types = the extracted model's, over every type of depth <= 1 built from a base set
+    # that has both members of the char8/u8 alias, two structures, a word, resolved and unresolved names, and a
+    # sample of depth 2 and 3
+    base = ["(prim 3)", "(prim 6)", "(prim 12)", "(prim 13)", "(prim 11)", "(prim 0)", "(struct 1)", "(struct 2)", "(word 3 4)", "(unresolved)", "(unresolved 1)"]
+    def up(ts):
+        out = []
+        for t in ts:
+            out += ["(slice %s)" % t, "(sliceptr %s)" % t, "(endless %s)" % t, "(arraylike %s)" % t, "(ptr %s)" % t, "(view %s)" % t, "(arr %s 3)" % t, "(arr %s 4)" % t, "(arrn %s 9)" % t]
+        return out
+    d1 = up(base); vrng = random.Random(ck.seed + 707)
+    d2 = up(vrng.sample(d1, 30)); d3 = up(vrng.sample(d2, 12))
+    tys = base + d1 + vrng.sample(d2, 60 if tier == "quick" else len(d2)) + vrng.sample(d3, 20 if tier == "quick" else len(d3))
+    pairs = [(a, b) for a in tys for b in tys]
+    if tier == "quick": pairs = vrng.sample(pairs, 6000) + [(a, b) for a in base + d1[:27] for b in base + d1[:27]]
+    # pairs a coercion is about: (x, coerced forms of x)
+    for t in base[:5] + d1[:18]:
+        for a in ("(arr %s 3)" % t, "(arrn %s 9)" % t, "(slice %s)" % t, "(sliceptr %s)" % t, "(ptr (arr %s 3))" % t, "(view (arr %s 3))" % t, "(ptr (ptr (arr %s 3)))" % t):
+            for b in ("(slice %s)" % t, "(view (endless %s))" % t, "(ptr (endless %s))" % t, "(sliceptr %s)" % t, "(ptr (arraylike %s))" % t, "(arraylike %s)" % t, "(ptr (sliceptr %s))" % t, "(view (slice %s))" % t):
+                pairs.append((a, b))
+                pairs.append((a, b.replace("(prim 12)", "(prim 6)") if "(prim 12)" in b else b.replace("(prim 6)", "(prim 12)")))      # across the char8/u8 alias
+    vcases = [("v%d" % i, "%s %s" % p) for i, p in enumerate(pairs)]
+    vimpl = C.run_harness("vtpred", vcases, ck.work + "/vtpred", timeout=1800)
+    vmodel = C.run_model([("vtpred", "v%d" % i, "(pair %s %s)" % p) for i, p in enumerate(pairs)], ck.work + "/vtpred", timeout=1800)
+    vbad = 0; vtrue = collections.Counter()
+    NAMES = ["can_be_declared_as", "can_be_concretization_of", "can_coerce_into", "can_coerce_address_into", "can_autoderef_into", "a.is_wellformed", "b.is_wellformed", "a.pointer_depth", "a.is_slice_pointer"]
+    for i, p in enumerate(pairs):
+        r = vimpl.get("v%d" % i, ["missing"])[0]; m = vmodel.get("v%d" % i, "MODEL-MISSING")
+        if r != m:
+            vbad += 1
+            diff = [NAMES[k] for k, (x, y) in enumerate(zip(r.split(" "), m.split(" "))) if x != y] if len(r.split(" ")) == len(m.split(" ")) == 9 else ["?"]
+            ck.violation("tie-broken:value-type-predicates", "value_type.rs and Model/Autoderef.v differ on %s for a = %s, b = %s" % (", ".join(diff), p[0], p[1]), "a = %s\nb = %s\nreal : %s\nmodel: %s\n(order: %s)" % (p[0], p[1], r, m, " ".join(NAMES)))
+            if vbad > 20: break
+        else:
+            for k, x in enumerate(r.split(" ")[:5]):
+                if x == "1": vtrue[NAMES[k]] += 1
+    ck.log("value_type predicates: %d pairs of %d types, holding %s, %d differences" % (len(pairs), len(tys), dict(vtrue), vbad))
+    # the tie of the model's autoderef to the typer: steps, address, type and coercion of generated references
+    from .. import adtie
+    adn, adstats, adbad = adtie.run(ck, 700 if tier == "quick" else 30000, ck.seed + 17)
     if not proof_ok:
         ck.violation("tie-broken:proof", "Props/C07.v no longer checks", getattr(ck, "proof_output", "")[-2000:])
     ck.coverage.update(
